@@ -45,7 +45,11 @@ def diff(path, model, real, out, limit=6):
         out.append('%s: spec=%r impl=%r' % (path, model, real))
 
 
-ALIASES = {'EarlyStore': 'Store', 'StaleStore': 'Store', 'RestoreAny': 'Restore', 'AbortFailed': 'Abort', 'NewOidQ': 'NewOid', 'CloseReopenQ': 'CloseReopen', 'DeleteQ': 'Delete'}
+class _Blocked(BaseException):
+    pass
+
+
+ALIASES = {'AbortVoted': 'Abort', 'AbortStaged': 'Abort', 'EarlyStore': 'Store', 'StaleStore': 'Store', 'RestoreAny': 'Restore', 'AbortFailed': 'Abort', 'NewOidQ': 'NewOid', 'CloseReopenQ': 'CloseReopen', 'DeleteQ': 'Delete'}
 
 
 class StorageReplayer:
@@ -113,6 +117,12 @@ class StorageReplayer:
         extra = {}
         self.calls += 1
         action = ALIASES.get(action, action)
+        import signal
+
+        def _blocked(signum, frame):
+            raise _Blocked()
+        old_handler = signal.signal(signal.SIGALRM, _blocked)
+        signal.setitimer(signal.ITIMER_REAL, self.opts.get('step_timeout', 8))
         try:
             if action == 'Init':
                 pass
@@ -190,9 +200,14 @@ class StorageReplayer:
             got = 'ReadOnlyError'
         except E.StorageError as ex:
             got = type(ex).__name__
+        except _Blocked:
+            got = 'BLOCKED (call did not return within the step timeout)'
         except Exception as ex:            # anything else the real call raises is an outcome, not a crash
             got = type(ex).__name__
             self.last_exc = repr(ex)[:200]
+        finally:
+            signal.setitimer(signal.ITIMER_REAL, 0)
+            signal.signal(signal.SIGALRM, old_handler)
         out = []
         if want == 'resolved':
             want = 'ok'
@@ -247,30 +262,42 @@ class StorageReplayer:
     def _rev(self, data, serial, end):
         return {'k': 'rev', 'd': cz.datum_of(data), 'serial': self.tids.model(serial), 'end': self.tids.model(end)}
 
-    def observe(self, model_obs):
+    def poke_oid(self, o):
+        try:
+            self.st.load(p64(o), '')
+        except KeyError:
+            pass
+
+    def poke(self, rng):
+        """Sparse mode: a single read through the storage's reader pool (what one concurrent reader does)."""
+        try:
+            self.st.load(p64(rng.randrange(self.noid)), '')
+        except KeyError:
+            pass
+
+    def observe(self, model_obs, first=()):
         """Ask the real storage every question the specification's table answers."""
         st = self.st
         T = self.tids
         mo = model_obs
         obs = {'lb': {}, 'cur': {}, 'ser': {}, 'revs': {}}
-        for o in mo['lb']:
+        order = [o for o in first if o in mo['lb']] + [o for o in mo['lb'] if o not in first]
+        for o in order:        # current revisions first (newest records), then the walks back through history
+            r = self._q(st.load, p64(o), '')
+            obs['cur'][o] = {'k': 'keyerr'} if r is KeyError else self._rev(r[0], r[1], None)
+        for o in order:
             oid = p64(o)
             row = {}
-            for t in mo['lb'][o]:
+            for t in sorted(mo['lb'][o], reverse=True):
                 r = self._q(st.loadBefore, oid, T.real(t))
                 row[t] = {'k': 'keyerr'} if r is KeyError else {'k': 'none'} if r is None else self._rev(*r)
             obs['lb'][o] = row
-            r = self._q(st.load, oid, '')
-            obs['cur'][o] = {'k': 'keyerr'} if r is KeyError else self._rev(r[0], r[1], None)
             row = {}
             for t in mo['ser'][o]:
                 r = self._q(st.loadSerial, oid, T.real(t))
                 row[t] = {'k': 'keyerr'} if r is KeyError else self._rev(r, T.real(t), None)
             obs['ser'][o] = row
-            if self.kind == 'file':
-                r = self._q(st.history, oid, 1000)
-            else:
-                r = self._q(st.history, oid, 1000)
+            r = self._q(st.history, oid, 1000)
             obs['revs'][o] = () if r is KeyError else tuple(T.model(d['tid']) for d in r)
         it = []
         for txn in st.iterator():
@@ -293,10 +320,10 @@ class StorageReplayer:
         obs['len'] = len(st)
         return obs
 
-    def compare(self, model_obs):
+    def compare(self, model_obs, first=()):
         mo = norm(model_obs)
         try:
-            real = self.observe(mo)
+            real = self.observe(mo, first)
         except Exception as ex:
             import traceback
             tb = traceback.extract_tb(ex.__traceback__)[-1]
@@ -359,9 +386,11 @@ def replay_behaviour(job):
     rp = StorageReplayer(kind, rc, workdir, opts)
     actions = Counter()
     result = {'steps': 0, 'mismatch': None, 'monitor': [], 'txns': 0, 'sig': []}
+    import random
+    sparse = bool(opts and opts.get('sparse'))
+    rng = random.Random(opts.get('rng_seed', 0) if opts else 0)
     try:
         rp.open()
-        prev_hist = None
         for i, step in enumerate(beh):
             a = step['action']
             actions[a] += 1
@@ -369,8 +398,22 @@ def replay_behaviour(job):
             mm = rp.step(a, step['args'], step['state'])
             what = 'outcome'
             if not mm:
-                mm = rp.compare(step['state']['obs'])
                 what = 'obs'
+                if sparse and ALIASES.get(a, a) not in ('Finish', 'CloseReopen', 'Init'):
+                    # a reader racing with the commit: while the transaction is voted it loads the oldest and
+                    # then the most recently committed object (the pooled read buffer is refilled next to the
+                    # voted bytes); otherwise an occasional single read (see DESIGN 6/C05)
+                    h = norm(step['state']['hist'])
+                    if a == 'Vote' and h and h[0]['recs'] and h[-1]['recs']:
+                        rp.poke_oid(h[0]['recs'][0]['oid'])
+                        rp.poke_oid(h[-1]['recs'][-1]['oid'])
+                    elif rng.random() < 0.2:
+                        rp.poke(rng)
+                elif sparse and a == 'Finish':
+                    h = norm(step['state']['hist'])
+                    mm = rp.compare(step['state']['obs'], first=[r['oid'] for r in h[-1]['recs']][::-1])
+                else:
+                    mm = rp.compare(step['state']['obs'])
             if not mm and kind == 'file' and opts and opts.get('bytes_check'):
                 mm = rp.bytes_check(ALIASES.get(a, a), norm(step['state']['res']))
                 what = 'bytes'
